@@ -4,7 +4,7 @@ import ast
 from .index import Inconclusive, norm
 from .interp import Interp, Policy, show, show_lit, walk_effects, K, NONE, subterms, mentions
 from .algebra import KIND_ATTR, kind_of_attr_term
-from .callgraph import _own_nodes
+from .callgraph import _own_nodes, local_names
 from .rules_embed import _bind
 from .rules_merge import lits_text
 
@@ -355,9 +355,12 @@ def rule_forger_protocol(check, rule):
             for node in _own_nodes(fi.node):
                 if isinstance(node, ast.Call) and any(kw.arg == 'obj' for kw in node.keywords):
                     fn = norm(node.func)
-                    if fn.endswith('forger') or fn.endswith('_signature_forger') or fn == 'forger':
+                    # (the forger protocol is "called with obj=<subject>": a call of a *value* -- a local, or an attribute of
+                    # self -- passing obj= is a forger call whatever the local is named)
+                    is_value = isinstance(node.func, ast.Name) and node.func.id in local_names(fi.node)
+                    if fn.endswith('forger') or fn.endswith('_signature_forger') or is_value:
                         n += 1
-                        key = '%s|forger-call|%s' % (fi.key, fn)
+                        key = '%s|forger-call|%s' % (fi.key, 'local' if is_value else fn)
                         if node.args:
                             check.violation(rule, site_of(fi, node), 'a forger is called with positional arguments', key=key)
                         else:
